@@ -7,6 +7,7 @@ mod big;
 mod refm;
 mod rt;
 mod he;
+mod prog;
 mod props;
 
 use rt::{Cfg, Tier};
